@@ -45,6 +45,18 @@ def _worker(task):
                             cex["replay"] = engine.replay(cid, case_id, cname, engine.unjson(cex["oracle"]))
                         except Exception:
                             cex["replay"] = {"status": "replay-crashed", "why": traceback.format_exc(limit=6)}
+            # refuted, but no counter-model replays (inductive obligations): look for a concrete failing input
+            for cname, ent in r["clauses"].items():
+                if ent["status"] == "refuted" and not any(isinstance(x, dict) and x.get("replay", {}).get("status", "").startswith("reproduced")
+                                                          for x in ent.get("cex", [])):
+                    if "_searched" not in r:
+                        try:
+                            r["_searched"] = engine.search_witness(cid, case_id, 300 if tier == "quick" else 3000, seed,
+                                                                   25 if tier == "quick" else 240)
+                        except Exception:
+                            r["_searched"] = None
+                    if r["_searched"] is not None:
+                        ent.setdefault("cex", []).insert(0, r["_searched"])
             # CPython cross-check
             try:
                 runs, bad = engine.xcheck(cid, case_id, nx, seed) if not r["undecided"] else (0, [])
@@ -275,11 +287,18 @@ def report(args, P, results, known, seed, t0):
         doc = {"property": prop, "obligation": v["obligation"], "contract": v.get("contract"), "case": v.get("case"),
                "clause": v.get("clause"), "tier": args.tier,
                "rerun": "./check %s --replay %s" % (prop, os.path.relpath(path, VERIF))}
+        if isinstance(reproduced, dict) and reproduced.get("clause_override"):
+            doc["refuted_obligation"] = v.get("clause")
+            doc["clause"] = reproduced["clause_override"]
+            doc["found_by"] = reproduced.get("found_by")
         if reproduced is not None:
             doc["failing_input"] = reproduced.get("oracle") if isinstance(reproduced, dict) else reproduced
             doc["replay"] = reproduced.get("replay") if isinstance(reproduced, dict) else None
             doc["what"] = ("bounded stand-in failed on the real code under CPython: concrete witnesses in failing_input"
-                           if v.get("bounded") else "counter-model replayed on the real code under CPython: clause is false")
+                           if v.get("bounded") else
+                           ("the solver refuted the obligation (its model is a loop-head state, not an input); failing input found by "
+                            "bounded concrete search and replayed on the real code under CPython: clause is false"
+                            if doc.get("found_by") else "counter-model replayed on the real code under CPython: clause is false"))
             line = "VIOLATION property=%s replay=%s" % (prop, os.path.relpath(path, VERIF))
         else:
             doc["solver_output"] = v.get("cex") or v.get("detail")
